@@ -132,7 +132,8 @@ Record config := mkC {
   c_mra : bool;             (* max_resource_attr given *)
   c_cost : bool;            (* cost_attr given (results carry a cost) *)
   c_nthr : Z;               (* RUSH num_threshold_candidates *)
-  c_tol : Q                 (* relative width of the Boundary region *)
+  c_tol : Q;                (* relative width of the Boundary region *)
+  c_sd_rungs : bool         (* searcher_data == "rungs" (otherwise "all" / "rungs_and_last") *)
 }.
 Definition c_levels (cfg : config) : list Z := map fst (c_rungs cfg).
 
@@ -482,7 +483,8 @@ Definition suggest (cfg : config) (st : state) (new_id : Z) (bracket : nat) (b g
       end
   end.
 
-(* HyperbandScheduler.on_trial_result (searcher_data = "rungs") *)
+(* HyperbandScheduler.on_trial_result; do_update = _update_searcher(...): for searcher_data = "rungs" only
+   at rung levels / max_t, otherwise for every report that is not ignored *)
 Definition on_trial_result (cfg : config) (st : state) (t resource : Z) (metric cost eps : Q)
   : result (state * decision) :=
   if (resource <? 1)%Z then Err EBadResource else
@@ -518,7 +520,9 @@ Definition on_trial_result (cfg : config) (st : state) (t resource : Z) (metric 
                   | Err e => Err e
                   | Ok off' =>
                       if ri_ignore info then Ok (mkS sys' (st_task st) (st_active st) off', CONTINUE) else
-                      let do_update := mem_Z resource (c_levels cfg) || Z.eqb resource (c_max_t cfg) in
+                      let do_update := if c_sd_rungs cfg
+                                       then mem_Z resource (c_levels cfg) || Z.eqb resource (c_max_t cfg)
+                                       else true in
                       match (if do_update then
                                let lur := match ti_lur ti with Some l => l | None => (resource - 1)%Z end in
                                if (resource <? lur)%Z then Err ELargestUpdate
